@@ -119,6 +119,19 @@ type encRun struct {
 	em       *emitter
 	distinct vh.Distinct
 	ring     []keptDoc // documents returned by earlier encodes, re-validated after later ones
+	prevRT   *keptRT   // C01: the document of the previous round-trip case as ProtoToJSON returned it (not a copy)
+}
+
+// keptRT: C01's sequence shape — the slice returned for m is decoded only after a LATER encode of another message
+type keptRT struct {
+	raw    []byte
+	m      protoreflect.Message
+	t      *target
+	flat   map[string]bool
+	in     map[string]any
+	caseNo int
+	stream string
+	suffix string
 }
 
 // keptDoc: the slice ProtoToJSON returned (not a copy) and a copy taken at once.
